@@ -88,6 +88,58 @@ Qed.
 Theorem no_fault tr p : core p = true -> forallb (fun o => negb (is_fault (res_of o))) (fst (run tr init p)) = true.
 Proof. intros H. rewrite (model_meets_spec tr p H). apply srun_no_fault. Qed.
 
+(* eq, cmp = Equal and equality of the hashes coincide, and are content equality, whatever the two
+   handles were built from *)
+Lemma ceqb_iff a : forall b, ceqb a b = true <-> a = b.
+Proof.
+  induction a as [|x a IH]; intros [|y b]; simpl; split; try discriminate; auto.
+  - intros H. apply andb_prop in H as [H1 H2]. apply N.eqb_eq in H1. apply IH in H2. congruence.
+  - intros H. inversion H; subst. rewrite N.eqb_refl. apply IH. reflexivity.
+Qed.
+
+Lemma lcmp_iff a : forall b, lcmp a b = 1 <-> a = b.
+Proof.
+  induction a as [|x a IH]; intros [|y b]; simpl; split; try discriminate; auto.
+  - destruct (N.ltb_spec x y); [discriminate|]. destruct (N.ltb_spec y x); [discriminate|].
+    intros H1. apply IH in H1. f_equal; auto. lia.
+  - intros H. inversion H; subst. rewrite N.ltb_irrefl. apply IH. reflexivity.
+Qed.
+
+Lemma ceqb_lcmp a b : ceqb a b = (lcmp a b =? 1).
+Proof.
+  destruct (ceqb a b) eqn:E, (N.eqb_spec (lcmp a b) 1) as [L|L]; auto.
+  - apply ceqb_iff in E. apply lcmp_iff in E. contradiction.
+  - apply lcmp_iff in L. apply ceqb_iff in L. congruence.
+Qed.
+
+Definition cmp_coherent (r : res) : bool :=
+  match r with RCmp o e he => Bool.eqb e (o =? 1) && Bool.eqb he e | _ => true end.
+
+Lemma sstep_cmp_coherent tr s o : cmp_coherent (fst (fst (fst (sstep tr s o)))) = true.
+Proof.
+  destruct o; simpl;
+  repeat match goal with
+         | |- context [match ?x with _ => _ end] => destruct x; simpl
+         | |- context [if ?x then _ else _] => destruct x; simpl
+         end; try reflexivity.
+  all: rewrite <- ceqb_lcmp, !Bool.eqb_reflx; reflexivity.
+Qed.
+
+Lemma srun_cmp_coherent tr p : forall s, forallb (fun o => cmp_coherent (res_of o)) (fst (srun tr s p)) = true.
+Proof.
+  induction p as [|o p IH]; intros s; simpl; auto.
+  pose proof (sstep_cmp_coherent tr s o) as H. destruct (sstep tr s o) as [[[r da] de] s1]. simpl in H.
+  specialize (IH s1). destruct (srun tr s1 p) as [os s2]. simpl in *. unfold res_of at 1. simpl. rewrite H, IH. reflexivity.
+Qed.
+
+Theorem eq_ord_hash_coincide tr p : core p = true ->
+  forallb (fun o => cmp_coherent (res_of o)) (fst (run tr init p)) = true.
+Proof. intros H. rewrite (model_meets_spec tr p H). apply srun_cmp_coherent. Qed.
+
+Lemma cmp_is_content tr s h h' d o d' o' : sget s h = Some (d, o) -> sget s h' = Some (d', o') ->
+  fst (fst (fst (sstep tr s (Cmp h h')))) = RCmp (lcmp d d') (ceqb d d') (ceqb d d').
+Proof. intros H H'. simpl. rewrite H, H'. reflexivity. Qed.
+
 (* balance: once every handle has been given back, every buffer is freed and every Arc is back to
    the caller's own references (freed exactly when the caller holds none) *)
 Definition all_consumed (m : st) : Prop := forall i, nth i (store m) None = None.
